@@ -1,0 +1,14 @@
+//go:build verif
+
+package vigil
+
+import "sync/atomic"
+
+// CountC26 returns the active-vigil counter. Verification only.
+func CountC26(v Vigil) int64 {
+	g, ok := v.(*vigil)
+	if !ok {
+		return -1 << 40
+	}
+	return atomic.LoadInt64(&g.vigils)
+}
